@@ -268,7 +268,8 @@ def multiplicity_is_a_count(prog: Program, rep, RID: str):
             rep.ok(RID, key, f"`{val}` is at least 1", f.loc(c))
             continue
         guards = []
-        for st in f.node.body:
+        from rules.common import split_or_return_guards
+        for st in split_or_return_guards(f.node).body:
             if getattr(st, "lineno", 0) >= c.lineno:
                 break
             if isinstance(st, ast.If) and st.body and isinstance(st.body[-1], ast.Return) and not st.orelse:
